@@ -31,7 +31,8 @@ def main():
     try:
         import gen
         gen.regenerate(ctx)
-        build = core.lake_build()
+        # build only what this property needs (its theorem module + the driver modules its Main imports)
+        build = core.lake_build(tuple([mod.MODULE] + list(getattr(mod, "BUILD_TARGETS", []))))
         audit = core.audit_axioms(prop, mod.MODULE, mod.THEOREMS) if build.ok else None
         if tier == "thorough" and build.ok:
             core.leanchecker(ctx, mod.MODULE)
